@@ -2,7 +2,7 @@
 # Re-verify every kept seed against the current /repo HEAD: patch applies, the repository's tests still pass with it, the demo
 # fails with it and passes without it, and the property's own check reports a violation.  Results: seeded/<id>/verify.json
 cd /verif
-for d in seeded/*/; do
+for d in ${SEED_DIRS:-seeded/C*/}; do
   id=$(basename $d); prop=${id%-*}
   if ! git -C /repo apply --check /verif/$d/patch.diff 2>/dev/null; then echo "$id: patch does not apply"; continue; fi
   git -C /repo apply /verif/$d/patch.diff
